@@ -3,6 +3,7 @@
 package c04
 
 import (
+	"reflect"
 	"fmt"
 	"sort"
 	"testing"
@@ -97,6 +98,36 @@ func run(w *core.Worker, c Case) {
 		for i, k := range want {
 			if cls(got[i].Key) != k || got[i].Val != model[k] {
 				w.Violation("bst.traverse-order", fmt.Sprintf("after step %d: Traverse gave %v, want keys (classes) %v with values %v", step, got, want, model))
+				return false
+			}
+		}
+		// Re-entrant use: a Traverse started from inside a Traverse callback (a nested loop over the
+		// map). Both walks must deliver the complete sequence just verified; walks must not share state.
+		if len(got) > 0 {
+			nestAt := (step + len(c.Ops)) % len(got)
+			var outer, inner []bstree.Item[int, int]
+			p := core.Catch(func() {
+				t.Traverse(func(it bstree.Item[int, int]) {
+					outer = append(outer, it)
+					if len(outer) > len(got)+8 {
+						panic("verif: traverse overrun")
+					}
+					if len(outer)-1 == nestAt {
+						t.Traverse(func(it2 bstree.Item[int, int]) {
+							inner = append(inner, it2)
+							if len(inner) > len(got)+8 {
+								panic("verif: traverse overrun")
+							}
+						})
+					}
+				})
+			})
+			if p != nil {
+				w.Violation("bst.nested-traverse-panic", fmt.Sprintf("after step %d: a Traverse nested in the callback of a Traverse at position %d panicked/overran: %v", step, nestAt, p))
+				return false
+			}
+			if !reflect.DeepEqual(outer, got) || !reflect.DeepEqual(inner, got) {
+				w.Violation("bst.nested-traverse", fmt.Sprintf("after step %d: Traverse with a nested Traverse started at position %d: outer walk %v, inner walk %v, a plain Traverse gives %v", step, nestAt, outer, inner, got))
 				return false
 			}
 		}
@@ -220,7 +251,7 @@ func FuzzBST(f *testing.F) {
 func TestProp(t *testing.T) {
 	r := core.Start(t, "C04")
 	defer r.Finish()
-	r.Rule("cases = operation sequences on bstree.BsTree[int,int] (Upsert with a fresh value per step / Delete / Get) checked against a map model: every return value, and Size + Get of every probe key + the full Traverse sequence after the last step (systematic sweep: every shorter sequence is its own case) or after every step (random sequences); a quarter of the cases use a comparator that orders keys by k/3 only (distinct keys equivalent under it: the tree is then a map from classes to values); non-trivial = the sequence overwrote a present key or deleted a present key; bst-bulk: 129-5000 keys loaded in sorted/reversed/shuffled order, then three rounds of deleting a fifth of the keys and re-inserting, with Size, the complete Traverse sequence (twice) and 64 random Gets after each phase; distinct by hash of (comparator, ops)")
+	r.Rule("cases = operation sequences on bstree.BsTree[int,int] (Upsert with a fresh value per step / Delete / Get) checked against a map model: every return value, and Size + Get of every probe key + the full Traverse sequence (plain, and again with a second Traverse started from inside the callback) after the last step (systematic sweep: every shorter sequence is its own case) or after every step (random sequences); a quarter of the cases use a comparator that orders keys by k/3 only (distinct keys equivalent under it: the tree is then a map from classes to values); non-trivial = the sequence overwrote a present key or deleted a present key; bst-bulk: 129-5000 keys loaded in sorted/reversed/shuffled order, then three rounds of deleting a fifth of the keys and re-inserting, with Size, the complete Traverse sequence (twice) and 64 random Gets after each phase; distinct by hash of (comparator, ops)")
 
 	L := r.Pick(6, 7)
 	var alpha []Op
